@@ -131,11 +131,17 @@ func Disassemble(main *runtime.Function, globals []Global, n int) map[string][]b
 			packages = packages[:]
 		}
 
+		// Collect the functions of the package in the order in which they
+		// have been found, which is deterministic, and sort them by line
+		// with a stable sort: the order of the functions declared on the
+		// same line does not depend on the iteration order of a map.
 		functions := make([]*runtime.Function, 0, len(funcs))
-		for fn := range funcs {
-			functions = append(functions, fn)
+		for _, fn := range allFunctions {
+			if fn.Pkg == path {
+				functions = append(functions, fn)
+			}
 		}
-		sort.Slice(functions, func(i, j int) bool { return funcs[functions[i]] < funcs[functions[j]] })
+		sort.SliceStable(functions, func(i, j int) bool { return funcs[functions[i]] < funcs[functions[j]] })
 
 		for _, fn := range functions {
 			if fn.Macro {
